@@ -24,6 +24,9 @@ const (
 )
 
 func init() {
+	mutant(&Mutant{Name: "c01-octal-escape-extended-by-merge", Property: "C01", File: "js/util.go",
+		Old: "if lit, ok := left.X.(*js.LiteralExpr); ok && lit.TokenType == js.StringToken && !endsInOctalEscape(lit.Data, strings[len(strings)-1].Data) {", New: "if lit, ok := left.X.(*js.LiteralExpr); ok && lit.TokenType == js.StringToken {",
+		Rule: "R01.41", Construct: "joins the list only if it does not end in an open octal escape"})
 	mutant(&Mutant{Name: "c01-call-unparenthesised-in-new-callee", Property: "C01", File: "js/js.go",
 		Old: "if js.OpNew <= prec || isOptionalGroup(expr.X) {", New: "if js.OpMember <= prec || isOptionalGroup(expr.X) {",
 		Rule: "R01.40", Construct: "case *js.DotExpr/object level inside the callee of new"})
@@ -119,6 +122,7 @@ func runC01(c *Ctx) {
 	c.r0138(pk)
 	c.r0139(pk)
 	c.r0140(pk)
+	c.r0141(pk)
 	c.alsoUnder(map[string]string{"R09.22": "R01.36", "R09.23": "R01.37"}, nil, func() { c.r0922(pk); c.r0923(pk) })
 }
 
